@@ -379,3 +379,144 @@ def replay_file(data):
         return 1
     print("does not reproduce on the current tree")
     return 0
+
+
+# --------------------------------------------------------------------- C07 monitors
+def snapshot_inputs(env):
+    snap = {}
+    for name, T in env.items():
+        if isinstance(T, STensor):
+            pts = [] if T.nr() == 0 else [(g, tuple(ckey(c) for c in cs), leaf) for g, cs, leaf in points(T.root, T.nr())]
+            snap[name] = (T, list(T.rank_ids), pts, T.root)
+    return snap
+
+
+def same_guard(a, b):
+    if a is b:
+        return True
+    if isinstance(a, bool) or isinstance(b, bool):
+        return a is b or a == b if isinstance(a, bool) and isinstance(b, bool) else False
+    return a.eq(b)
+
+
+def check_names_and_inputs(env, spec, snap):
+    """-> (definite problems, solver obligations)"""
+    import re as _re
+    problems, obls = [], []
+    names = sorted(spec["decl"], key=len, reverse=True)
+    for var, val in env.items():
+        if not isinstance(val, STensor) or var.startswith("__"):
+            continue
+        for t in names:
+            if var.startswith(t + "_"):
+                suffix = var[len(t) + 1:]
+                if suffix.endswith("_flat"):
+                    suffix = suffix[:-5]
+                if not _re.fullmatch(r"[A-Z0-9]*", suffix):
+                    break
+                if "".join(val.rank_ids) != suffix:
+                    problems.append("variable %s holds a tensor with rank ids %s" % (var, val.rank_ids))
+                break
+    for name, (T, ranks, pts, root) in snap.items():
+        final = env.get(name)
+        # both the object the user handed in and whatever the user's variable is bound to at the end
+        # must hold exactly the data and rank order supplied
+        for label, X in (("object", T), ("variable", final)):
+            if label == "variable" and final is T:
+                continue
+            if not isinstance(X, STensor):
+                problems.append("input variable %s is bound to %s at the end" % (name, type(X).__name__))
+                continue
+            if list(X.rank_ids) != ranks:
+                problems.append("input %s (%s) now has rank ids %s (was %s)" % (name, label, X.rank_ids, ranks))
+                continue
+            now = [] if X.nr() == 0 else [(g, tuple(ckey(c) for c in cs), leaf) for g, cs, leaf in points(X.root, X.nr())]
+            before = {k: (g, leaf) for g, k, leaf in pts}
+            for g, k, leaf in now:
+                if k not in before:
+                    if g is not False:
+                        obls.append(Obl(g, "input %s gained element %s" % (name, list(k))))
+                    continue
+                g0, leaf0 = before.pop(k)
+                if not same_guard(g, g0):
+                    obls.append(Obl(neq(to_z3(g) if not isinstance(g, bool) else z3.BoolVal(g),
+                                        to_z3(g0) if not isinstance(g0, bool) else z3.BoolVal(g0)),
+                                    "input %s: presence of element %s changed" % (name, list(k))))
+                if leaf is not leaf0:
+                    v1 = leaf.value if isinstance(leaf, Cell) else leaf
+                    v0 = leaf0.value if isinstance(leaf0, Cell) else leaf0
+                    for mono in v1.monomials() | v0.monomials():
+                        c = neq(v1.coef(mono), v0.coef(mono))
+                        if c is not False:
+                            obls.append(Obl(c, "input %s: value of element %s changed" % (name, list(k))))
+            for k, (g0, _) in before.items():
+                if g0 is not False:
+                    obls.append(Obl(g0 if not isinstance(g0, bool) else True, "input %s lost element %s" % (name, list(k))))
+    return problems, obls
+
+
+def work_names(spec, metrics=False):
+    """C07: compile, execute, check names/result binding/inputs; JSON-able verdict"""
+    base = {"name": spec["name"]}
+    try:
+        text = compile_spec(spec, metrics)
+    except Rejected as r:
+        return dict(base, status="rejected", why=str(r))
+
+    def run(presence):
+        CTX.reset()
+        env, P = build_env(spec, presence)
+        rec = world.install(env)
+        snap = snapshot_inputs(env)
+        Interp(env).run(text)
+        problems, obls = check_names_and_inputs(env, spec, snap)
+        # the result binding: name, rank ids, original coordinates (and values) - same obligation as C01
+        ref = reference(spec, P)
+        o2, nz = [], []
+        for t in dict.fromkeys(outputs_of(spec)):
+            try:
+                compare_output(env, spec, ref[t], t, o2, nz)
+            except ModelError as ex:
+                problems.append(str(ex))
+        return problems, obls + o2, P
+
+    t0 = time.time()
+    try:
+        problems, obls, P = run(None)
+    except NotModelled as ex:
+        return dict(base, status="inconclusive", why="not modelled: %s" % ex)
+    except RefError as ex:
+        return dict(base, status="inconclusive", why="reference: %s" % ex)
+    except ModelError as ex:
+        problems, obls, P = ["model-error: %s" % ex], [], {}
+    res = dict(base, obligations=len(obls) + 1, exec_s=time.time() - t0, presence_vars=len(P))
+    model = None
+    if not problems:
+        r, model, dt = solve_any([o.cond for o in obls])
+        res["solver_s"] = dt
+        res["queries"] = 1
+        if r == "unsat":
+            return dict(res, status="ok")
+        if r != "sat":
+            return dict(res, status="inconclusive", why="solver: %s" % r)
+    pres = model_presence(P, model) if P else {}
+    if not P:
+        _, P0 = build_env(spec)
+        pres = {k: True for k in P0}
+    try:
+        p2, o2, _ = run(pres)
+        diffs = p2 + [o.what for o in o2 if o.cond is True]
+    except ModelError as ex:
+        diffs = ["model-error: %s" % ex]
+    cls = "names" if any("holds a tensor" in d or "is not bound" in d or "rank ids" in d for d in diffs) else \
+        ("inputs" if any(d.startswith("input") for d in diffs) else classify(diffs))
+    sig = dict(spec.get("tags") or {}, engine="E1", cls=cls)
+    if cls == "model-error:NameError":
+        import re as _re
+        m = _re.search(r"NameError: (\w+)", " ".join(diffs))
+        nm = m.group(1) if m else "?"
+        lo = sum(((spec.get("mapping") or {}).get("loop-order") or {}).values(), [])
+        sig["unbound"] = "loop-rank-level" if nm in lo and nm[-1:].isdigit() else nm
+    return dict(res, status="violation", confirmed=bool(diffs), why="; ".join((problems or which(obls, model))[:3]) + " | concrete replay: " + "; ".join(diffs[:3]),
+                sig=sig,
+                replay={"spec": spec, "metrics": metrics, "text": text, "presence": pres, "differences": diffs, "targets": None})
